@@ -131,6 +131,74 @@ def check_emit_callbacks(ctx, F):
         ctx.unresolved('R2', 'a callback that receives code-word bits forwards them or stores them in a growable container', 'symbol', 'only %d emit callbacks found' % n, key='R2/emit-callback/floor')
 
 
+def check_prefix_pops_stack(ctx, F):
+    """The provided prefix form buffers the suffix form on a scratch stack and emits it in pop order.  Accepted: every bit handed
+    to `emit` comes out of the stack's own reader (its Iterator / read_bit; that it pops in reverse is C16's business).  A
+    hand-rolled walk over the buffered words is refuted when it visits the flushed words front to back: the word written
+    first then comes out first, so code words longer than one buffer word come out with their blocks in the wrong order."""
+    TR = 'symbol::EncoderCodebook'
+    key = 'R2/prefix-pops-stack/' + TR
+    role = 'the prefix form emits the buffered suffix form in pop order'
+    bs = [b for b in F.bodies if b.promoted is None and b.name == 'encode_symbol_prefix' and b.trait == TR and b.impl is None]
+    if not bs:
+        return ctx.unresolved('R2', role, TR, 'provided encode_symbol_prefix not found', key=key)
+    b = bs[0]
+    ctx.touch(b)
+    ev, paths = rules.evaluate(b)
+    if not paths:
+        return ctx.unresolved('R2', role, b.defpath, 'not evaluated', key=key)
+    n_ok = 0
+    unk = None
+    is_call = lambda x, suf: isinstance(x, tuple) and x and x[0] == 'call' and str(x[1]).endswith(suf)
+    for r in paths:
+        pre = {}
+        for e in r.events:
+            if e['kind'] == 'loop_enter':
+                for k, v in e['pre'].items():
+                    pre[(e['head'], tuple(k) if isinstance(k, (list, tuple)) else k)] = v
+        for e in r.events:
+            if e['kind'] != 'call' or not e['callee'].endswith(('FnMut::call_mut', 'FnOnce::call_once', 'Fn::call')):
+                continue
+            if not e['args'] or not (e['args'][0][0] == 'ref' and e['args'][0][1] and e['args'][0][1][0] == 3):
+                continue
+            bit = e['args'][1]
+            srcs = []
+            for x in sym.subterms(bit):
+                if is_call(x, 'Iterator::next') and x[2]:
+                    it = x[2][0]
+                    if isinstance(it, tuple) and it and it[0] == 'loop':
+                        it = pre.get((it[1], tuple(it[2])), it)
+                    srcs.append(it)
+                if is_call(x, 'read_bit'):
+                    srcs.append(('stack',))
+            if not srcs:
+                unk = 'a bit handed to emit is computed without the stack\'s reader (%s)' % sym.show(bit)[:70]
+                continue
+            for it in srcs:
+                if it == ('stack',):
+                    n_ok += 1
+                    continue
+                fwd = True
+                core = it
+                while isinstance(core, tuple) and core and core[0] == 'call' and core[2]:
+                    if str(core[1]).endswith(('::rev', 'DoubleEndedIterator::rev')):
+                        fwd = not fwd
+                    core = core[2][0]
+                if isinstance(core, tuple) and core and core[0] == 'proj' or sym.show(core).endswith('.backend'):
+                    if fwd:
+                        return ctx.bad('R2', role, b.defpath, 'emit is fed from a front-to-back walk over the words of the scratch stack (%s): the words flushed first are emitted first, so a code word longer than one buffer word is not the reversed suffix form' % sym.show(it)[:80], key=key, loc=rules.loc(b))
+                    unk = 'hand-rolled back-to-front walk over the buffered words'
+                elif 'SymbolCoder' in sym.show(core):
+                    n_ok += 1
+                else:
+                    unk = 'bits come from %s' % sym.show(core)[:60]
+    if unk:
+        return ctx.unresolved('R2', role, b.defpath, unk, key=key)
+    if not n_ok:
+        return ctx.unresolved('R2', role, b.defpath, 'no emit call found', key=key)
+    ctx.ok('R2', role, b.defpath, 'every emitted bit is popped from the scratch stack by its own reader', key=key)
+
+
 def _prepared_weights(F, b):
     """canonical form of the argument(s) the wrapper hands to the tree builder (closures by fingerprint), or None."""
     canon = dageq.Canon(F)
@@ -334,6 +402,10 @@ def run(ctx):
     check_num_symbols(ctx, F)
     check_rejects_before_accepting(ctx, F)
     check_emit_callbacks(ctx, F)
+    check_prefix_pops_stack(ctx, F)
+    import props.C08 as c08
+    for tree in (ENC, DEC):
+        c08.check_clone_complete(ctx, F, tree)      # a tree refreshed from another one (clone / clone_from) is that tree, not a mixture
     eb = [b for b in F.bodies if b.promoted is None and b.name == BUILDER and b.self_adt == ENC]
     db = [b for b in F.bodies if b.promoted is None and b.name == BUILDER and b.self_adt == DEC]
     key = 'R4/same-merge-protocol/huffman'
